@@ -270,7 +270,7 @@ def r7(ctx):
 RULES = [r1, r2, r3, r4, r5, r6, r7]
 EXPLANATION = ("C01 (log contents equal an append-only list model across reopen): decides the replay codec agreement of the oplog Entry — each optional section is decoded under the flag bit it was "
                "encoded with, flags 1/2/4/8, same presence conditions in size and encode (R1); replay completeness — every field of Entry reaches its consumer inside the replay loop of Hypercore::new, the "
-               "rebuilt changeset is completed, copied into the header and committed, entries are walked in log order (R2); the read gate — every storage read of get() is dominated by bitfield.get(index), the "
+               "rebuilt changeset is completed, copied into the header and committed, entries are walked in log order, and whether a replay consumer runs for an entry depends only on the entry field it consumes — never on another field such as tree_upgrade (R2); the read gate — every storage read of get() is dominated by bitfield.get(index), the "
                "not-held edge returns Ok(None), has() is bitfield.get(index) (R3); append / clear placement — data offset = tree.byte_length before commit, bitfield update = [ancestors, +batch_length), clear "
                "logs and drops exactly [start, end) (R4); observation provenance — AppendOutcome / Info come from the committed tree, commit copies the changeset, byte length accumulates node sizes (R5); loops that persist or apply one thing per element (batch blocks, changeset nodes, unflushed nodes, dirty pages, replayed nodes) do so for every element (R6); the bitfield page reader uses the writer's stride, page-relative little-endian words and reads every word of a complete page (R7).")
 NOT_DECIDED = ("byte equality of reads; byte offsets of blocks (sums of node sizes over flat-tree paths); the hole computation in clear; flush cadence; that reopening changes no observation beyond R1/R2.")
